@@ -9,4 +9,38 @@ Src322  == << <<2, 2, 1>>, <<2, 1>> >>
 Src21   == << <<2, 1>>, <<1>> >>
 Src1    == << <<2>>, <<1>> >>
 Src0    == << <<0>>, <<2, 1>> >>       \* an empty message (single empty final chunk)
+Src22   == << <<2, 2>>, <<2>> >>       \* final chunks that are exactly full (nothing spare in a chunk-sized buffer)
+
+----------------------------------------------------------------------------
+(* Refinement link to the unbounded argument (DecLoopInd.tla, whose invariant Apalache
+   proves inductive for any number of chunks): every step of DecLoop after the adversary phase,
+   projected to integers, is a step of DecLoopInd or leaves its variables unchanged, and every
+   reachable state satisfies the invariant.  Claimed for the baseline Variant only. *)
+
+\* how far the decryptor can get: leading records that open in position and are completely
+\* present, stopping at the first one flagged final
+RECURSIVE ChainFrom(_)
+ChainFrom(k) == IF k > NRec \/ ~Opens(f, k) \/ ~Present(f, H, k) THEN 0
+                ELSE IF f.recs[k].flagf = 1 THEN 1 ELSE 1 + ChainFrom(k + 1)
+ProjA        == ChainFrom(1)
+ProjFinal    == ProjA >= 1 /\ f.recs[ProjA].flagf = 1
+ProjTrailing == ProjFinal /\ FLen > EndOf(f.recs, H, ProjA)
+ProjPc == CASE pc \in {"adv", "hdr"} -> "hdr"
+            [] pc \in {"rhdr", "lenchk", "rbody"} -> "rhdr"
+            [] OTHER -> pc
+\* the number of records opened so far
+Opened == CASE pc \in {"adv", "hdr", "rhdr", "lenchk", "rbody", "open"} -> j - 1
+            [] pc \in {"probe", "write", "flush"} -> j
+            [] OTHER -> \* "end": by the exit taken
+                 IF res \in {"ok", "err_write", "err_trailing"} THEN j
+                 ELSE IF res = "err_read" /\ j <= ProjA /\ pos >= EndOf(f.recs, H, j) THEN j   \* the probe failed
+                 ELSE j - 1
+ProjAuth == PlainUpTo(f.recs, Opened)
+ProjClen == IF Opened = 0 THEN 0 ELSE f.recs[Opened].plen
+Ind == INSTANCE DecLoopInd WITH A <- ProjA, final <- ProjFinal, trailing <- ProjTrailing, pc <- ProjPc,
+                                authBytes <- ProjAuth, clen <- ProjClen
+MCLens == 0..CS          \* cfg: Lens <- [DecLoopInd] MCLens
+ProjDecIndInv == Ind!IndInv
+ProjDecInit   == (pc = "adv" /\ edits = <<>>) => Ind!Init
+RefinesDecLoopInd == [][(f' = f) => (Ind!Next \/ UNCHANGED Ind!vars)]_vars
 =============================================================================
